@@ -307,6 +307,67 @@ def oracle(ctx):
             ctx.violation('dict-attribute key is emitted unescaped', {'template': '<p tal:attributes="d"/>', 'key': key},
                           actual=out, finding='D-02a' if out == '<p %s="v"/>' % key else None)
 
+    # the translation of a non-string value may itself be a non-string object (a lazy message; with the default translation
+    # function: the value's `default` attribute): its string form is inserted, escaped like any other text
+    class _Lazy:
+        def __init__(self, t):
+            self.t = t
+
+        def __str__(self):
+            return self.t
+
+    class _Field:
+        default = _Lazy('"><i>&\'')
+
+        def __str__(self):
+            return 'field'
+
+    def _tr(msgid, **kw):
+        return msgid if isinstance(msgid, str) else _Lazy('"><i>&\'')
+    hostile = '"><i>&\''
+    esc_text = hostile.replace('&', '&amp;').replace('<', '&lt;').replace('>', '&gt;')
+    sites = [('<p>${v}</p>', '<p>%s</p>' % esc_text), ('<p tal:content="v"/>', '<p>%s</p>' % esc_text), ('<p tal:replace="v"/>', esc_text),
+             ('<p title="a ${v}"/>', '<p title="a %s"/>' % esc_text.replace('"', '&quot;')),
+             ("<p title='a ${v}'/>", "<p title='a %s'/>" % esc_text.replace("'", '&#39;')),
+             ('<p tal:attributes="title v"/>', '<p title="%s"/>' % esc_text.replace('"', '&quot;'))]
+    for src, want in sites:
+        for label, kw, val in (('translate() returns a lazy object', {'translate': _tr}, object()), ('value with a non-string .default', {}, _Field())):
+            ctx.count('evaluations')
+            try:
+                out = PageTemplate(src, **kw)(v=val)
+            except Exception as e:
+                out = 'raised %s: %s' % (type(e).__name__, str(e).split('\n')[0][:80])
+            if out != want:
+                ctx.violation('a value whose translation is a non-string object is inserted without escaping (or not at all)',
+                              {'template': src, 'case': label}, expected=want, actual=out)
+    # several insertions in one rendering: an opt-out value (Markup / __html__ str subclass) and an *equal* plain string, in
+    # both orders and at every pair of sites: the plain one is escaped whatever was inserted before it
+    from chameleon.utils import Markup
+
+    class HtmlStr(str):
+        def __html__(self):
+            return str(self)
+    raw = '<b a="1">&\''
+    esc_t = raw.replace('&', '&amp;').replace('<', '&lt;').replace('>', '&gt;')
+    site_tpl = {'text': ('<p>${%s}</p>', lambda e: '<p>%s</p>' % e, esc_t), 'content': ('<p tal:content="%s"/>', lambda e: '<p>%s</p>' % e, esc_t),
+                'dq': ('<p title="${%s}"/>', lambda e: '<p title="%s"/>' % e, esc_t.replace('"', '&quot;')),
+                'attr': ('<p tal:attributes="title %s"/>', lambda e: '<p title="%s"/>' % e, esc_t.replace('"', '&quot;')),
+                'sq': ("<p title='${%s}'/>", lambda e: "<p title='%s'/>" % e, esc_t.replace("'", '&#39;'))}
+    for first in ('m', 's'):
+        for sa, (ta, fa, ea) in site_tpl.items():
+            for sb, (tb, fb, eb) in site_tpl.items():
+                for mk in (Markup, HtmlStr):
+                    ctx.count('evaluations')
+                    names = (first, 's' if first == 'm' else 'm')
+                    src = ta % names[0] + tb % names[1]
+                    want = fa(raw if names[0] == 'm' else ea) + fb(raw if names[1] == 'm' else eb)
+                    try:
+                        out = PageTemplate(src)(m=mk(raw), s=raw)
+                    except Exception as e:
+                        out = 'raised %s' % type(e).__name__
+                    if out != want:
+                        ctx.violation('an inserted plain string must be escaped also when an equal opt-out value (Markup / __html__) was inserted '
+                                      'earlier in the same rendering', {'template': src, 'm': mk.__name__ + '(%r)' % raw, 's': raw}, expected=want, actual=out)
     # D-02b: a `string:` expression nested in ${...} escapes its parts itself and is then escaped again as a whole
     for src, want in (('<p>${string:foo ${x}}</p>', '<p>foo &lt;&amp;&gt;</p>'), ('<p title="${string:foo ${x}}"/>', '<p title="foo &lt;&amp;&gt;"/>')):
         ctx.count('evaluations')
